@@ -1231,6 +1231,15 @@ def model_env(model, ctx: Ctx, prefer="E"):
     env["__purified__"] = {
         str(orig): _val(m.eval(c, model_completion=True)) for (c, orig) in table.values()
     }
+    if prefer == "E":
+        # user-function applications with an exp companion: value := D ln E, so
+        # that the environment is a real point of the log-space problem
+        for _, (atom, e) in ctx.exp_atoms.items():
+            if is_var(atom):
+                continue
+            x = _val(m.eval(e, model_completion=True))
+            if x is not None and x > 0:
+                env["__purified__"][str(atom)] = ctx.D * math.log(x)
     return env
 
 
